@@ -79,7 +79,9 @@ func (w *recordWorkload) contents() ([]recordtypes.Content, string) {
 	n := 1 + rng.Intn(3)
 	var cs []recordtypes.Content
 	for i := 0; i < n; i++ {
-		cs = append(cs, recordtypes.Content{Digest: fmt.Sprintf("%x", rng.Int63()), DigestAlgo: pick(rng, "sha256", "md5"), URI: pick(rng, "", "ipfs://x"), Meta: strings.Repeat("m", rng.Intn(40))})
+		cs = append(cs, recordtypes.Content{Digest: fmt.Sprintf("%x", rng.Int63()), DigestAlgo: pick(rng, "sha256", "md5"),
+			URI:  pick(rng, "", "ipfs://x", "ipfs://x", "HTTPS://Example.ORG/Annual Report 2024.pdf", "http://ex\u00e4mple.org/\u00fc?q=a b&r=%zz", " leading and trailing ", "a\tb", "file:///tmp/../x/./y", "urn:uuid:6E8BC430-9C3A-11D9-9669-0800200C9A66", "%41%42%43"),
+			Meta: pick(rng, strings.Repeat("m", rng.Intn(40)), "caf\u00e9 \u2603 \U0001F600", "{\"k\": [1, 2,  3]}", "line1\nline2", " ")})
 	}
 	switch rng.Intn(8) {
 	case 0: // the same file listed twice (same digest and algorithm, another location)
